@@ -116,6 +116,18 @@ pub const FOCUS_COORD_MIN: Granularity = Granularity::Focus(
     &[grevm_verif_rt::pt::FINALITY_PUBLISH, grevm_verif_rt::pt::COMMIT_PUBLISH, grevm_verif_rt::pt::VALIDATE_VERDICT],
 );
 
+/// The same plus the start of a finality candidate test (between the top of a finality pass and
+/// the candidate's lock).
+pub const FOCUS_COORD_MIN2: Granularity = Granularity::Focus(
+    "focus-coord-min2",
+    &[
+        grevm_verif_rt::pt::FINALITY_READ,
+        grevm_verif_rt::pt::FINALITY_PUBLISH,
+        grevm_verif_rt::pt::COMMIT_PUBLISH,
+        grevm_verif_rt::pt::VALIDATE_VERDICT,
+    ],
+);
+
 pub fn jobs(prop: &str, tier: Tier) -> Vec<Job> {
     match prop {
         "C01" => c01::jobs(tier),
